@@ -148,7 +148,9 @@ class TypeTable:
             if base in ("tuple",):
                 if isinstance(arg, ast.Tuple) and len(arg.elts) == 2 and isinstance(arg.elts[1], ast.Constant) and arg.elts[1].value is Ellipsis:
                     return TSeqT(self.td_of_annotation(arg.elts[0], module))
-                return TAny  # heterogeneous tuples are Python-level values
+                if isinstance(arg, ast.Tuple):
+                    return smt.TTupleT([self.td_of_annotation(e, module) for e in arg.elts])
+                return TAny
             if base in ("Sequence", "list", "Iterable"):
                 return TSeqT(self.td_of_annotation(arg, module))
             if base in ("type", "Callable", "dict", "Mapping", "Iterator", "Container"):
